@@ -245,3 +245,43 @@ fn byte_mutations_of_all_columns_never_panic() {
     eprintln!("PANICS2: {:?}", panics);
     assert!(panics.is_empty());
 }
+
+#[test]
+fn byte_mutations_of_a_bundle_never_panic() {
+    use automerge::{ObjType, transaction::Transactable};
+    let mut doc = Automerge::new().with_actor(ActorId::from([1u8; 16]));
+    let mut tx = doc.transaction();
+    let l = tx.put_object(ROOT, "list", ObjType::List).unwrap();
+    tx.insert(&l, 0, 1).unwrap(); tx.insert(&l, 1, "two").unwrap();
+    let t = tx.put_object(ROOT, "text", ObjType::Text).unwrap();
+    tx.splice_text(&t, 0, 0, "hello").unwrap();
+    tx.put(ROOT, "c", automerge::ScalarValue::counter(5)).unwrap();
+    tx.commit();
+    for i in 1..3u8 {
+        let mut other = doc.fork().with_actor(ActorId::from([i + 1; 16]));
+        let mut tx = other.transaction(); tx.put(ROOT, format!("k{i}"), "hello").unwrap(); tx.increment(ROOT, "c", 2).unwrap(); tx.delete(&l, 0).unwrap(); tx.commit();
+        doc.merge(&mut other).unwrap();
+    }
+    let hashes: Vec<_> = doc.get_changes(&[]).iter().map(|c| c.hash()).collect();
+    let bundle = doc.bundle(hashes).unwrap();
+    let orig = bundle.bytes().to_vec();
+    eprintln!("bundle len {}", orig.len());
+    {
+        let mut d = Automerge::new();
+        d.load_incremental(&orig).unwrap();
+    }
+    let mut pos0 = 9; let _ = read_uleb(&orig, &mut pos0);
+    let mut panics = std::collections::BTreeSet::new();
+    for pos in pos0..orig.len() {
+        for v in 0u8..=255 {
+            let mut b = orig.clone();
+            if b[pos] == v { continue; }
+            b[pos] = v;
+            fix_checksum(&mut b);
+            let r = std::panic::catch_unwind(|| { let mut d = Automerge::new(); let _ = d.load_incremental(&b); let _ = automerge::Bundle::try_from(&b[..]).map(|bu| { let _ = bu.to_changes(); }); });
+            if r.is_err() { panics.insert(pos); }
+        }
+    }
+    eprintln!("BUNDLE PANIC POSITIONS: {:?}", panics);
+    assert!(panics.is_empty());
+}
